@@ -727,8 +727,10 @@ fn c03_o7_size_boundaries() {
 }
 
 //@ ob: C15.O3b
-//@ tier: thorough
-//@ cap: 2700
+//@ tier: quick
+//@ cap: 800
+//@ rss: 8
+//@ time: 459
 //@ standins: tracing lru vcoll
 //@ desc: token lifetime through the server's lazy rotation: a token issued while handling a request at t0 is accepted by a put arriving at t1 whenever t1 - t0 <= 300 s (lookup-then-put always works), whatever rotations the request at t1 triggers; (that the secret is gone after two rotations is the leaf C15.O3)
 //@ bounds: secrets symbolic; last rotation at symbolic age <= 400 s before t0; t1 - t0 symbolic <= 1000 s; unwind 26
@@ -784,9 +786,9 @@ fn c15_o3b_token_lifetime() {
 
 
 //@ ob: C15.O3c
-//@ tier: thorough
-//@ cap: 2400
-//@ rss: 8.0
+//@ tier: quick
+//@ cap: 800
+//@ rss: 8
 //@ time: 620
 //@ standins: tracing lru vcoll
 //@ desc: token expiry on a node that keeps receiving requests of any kind: a token issued with a get_peers reply at t0, followed by two further requests that carry no token (pings) more than 300 s apart, is refused with 203 when presented afterwards -- the lazy rotation runs on every handled request, so the issuing secret is in neither slot after two rotation periods
